@@ -35,6 +35,7 @@ func init() {
 	register(windowScn{})
 	register(rpcScn{})
 	register(cutScn{})
+	register(faultseqScn{})
 	register(hostileScn{})
 	register(clientScn{})
 	register(lifecycleScn{})
